@@ -317,7 +317,7 @@ func (r *Run) Finish(level string) int {
 		}
 		nUnknown++
 		sum := sha256.Sum256([]byte(k))
-		p := filepath.Join(r.Dir, "replays", r.ID, hex.EncodeToString(sum[:6])+".json")
+		p := filepath.Join(outDir(r.Dir), "replays", r.ID, hex.EncodeToString(sum[:6])+".json")
 		_ = os.MkdirAll(filepath.Dir(p), 0o755)
 		doc := map[string]interface{}{"property": r.ID, "key": k, "what": v.What, "case": v.Case, "count": v.Count}
 		b, _ := json.MarshalIndent(doc, "", " ")
@@ -369,7 +369,7 @@ func (r *Run) Finish(level string) int {
 	}
 	if !r.Replaying {
 		b, _ := json.MarshalIndent(ev, "", " ")
-		p := filepath.Join(r.Dir, "evidence", r.ID+".json")
+		p := filepath.Join(outDir(r.Dir), "evidence", r.ID+".json")
 		_ = os.MkdirAll(filepath.Dir(p), 0o755)
 		if err := os.WriteFile(p, append(b, '\n'), 0o644); err != nil {
 			fmt.Fprintln(os.Stderr, "cannot write evidence:", err)
@@ -441,6 +441,16 @@ func (r *Run) StrayPanic(where, stack string) {
 	}
 	r.Violation("panic/"+site+"/outside-the-guarded-call", fmt.Sprintf("go-mail panicked in a preparatory step of the check (%s): %s", where, first),
 		map[string]string{"where": where, "stack": stack}, nil)
+}
+
+// outDir is where evidence and replay files go: the verification directory, or — for experiments on deliberately
+// broken copies of go-mail (mutant and seed runs), whose evidence must not replace the committed one — the
+// directory named by VERIF_OUT_DIR.
+func outDir(dir string) string {
+	if o := os.Getenv("VERIF_OUT_DIR"); o != "" {
+		return o
+	}
+	return dir
 }
 
 // Guard runs f and converts a panic into (true, description).
